@@ -64,6 +64,11 @@ def dense_tol(h, nterms):
 def check_qc_dense(run, rng, n, thorough=False):
     sym = str(rng.choice(["8", "8", "4", "pair"]))
     h, eri, style = L.gen_integrals(rng, n, sym)
+    if rng.random() < 0.15:
+        # the same integrals in tiny units (1e-12 .. 1e-9): no integral may be treated as a numerical zero
+        unit = float(10 ** rng.uniform(-12, -9))
+        h, eri = h * unit, eri * unit
+        style += ":tiny-unit"
     conserve = bool(rng.random() < 0.7)
     algo = str(rng.choice(["qr", "qr", "Hopcroft-Karp", "Hungarian"]))
     run.count(f"A1:n={n}"), run.count(f"A1:sym={sym}"), run.count(f"A1:style={style}")
@@ -256,6 +261,17 @@ def gen_swap_model(rng, kind):
         else:
             tm.extra["symbols"] = "+,-,Z"
         return tm, True
+    if kind == "one-term":
+        # an operator that is exactly ONE product term with a prefactor (the single-row path of the constructor)
+        n = int(rng.integers(2, 5))
+        sites = [L.Site("spin", f"s{i}", 2, [(0,), (0,)]) for i in range(n)]
+        k = int(rng.integers(1, n + 1))
+        on = sorted(int(x) for x in rng.choice(n, size=k, replace=False))
+        if rng.random() < 0.6 and (n - 1) not in on:
+            on[-1] = n - 1                         # usually the last site takes part
+        term = (float(np.round(rng.uniform(0.3, 2.5) * rng.choice([-1, 1]), 3)),
+                [(i, str(rng.choice(["sigma_x", "sigma_z"]))) for i in sorted(set(on))])
+        return L.TModel(sites, [term], "one-term"), False
     if kind == "spin":
         return L.gen_spin_model(rng, conserve=False), False
     if kind == "spin-u1":
@@ -813,7 +829,7 @@ def search(run, rng, quick):
             distinct.add(("A3", evals))
         evals += 1
     # B1 / B2 / B3
-    kinds = ["qc", "qc", "qc-sigma", "qc-sigma", "spin", "spin-u1", "eph", "eph", "eph-2qn"]
+    kinds = ["qc", "qc", "qc-sigma", "qc-sigma", "spin", "spin-u1", "eph", "eph", "eph-2qn", "one-term"]
     probe_swap_sequences(run)
     evals += 3
     nb1 = 90 if quick else 700
@@ -823,9 +839,10 @@ def search(run, rng, quick):
     for it in range(nb2):
         note(check_pair_sweeps(run, rng, kinds[it % len(kinds)]))
     nb3 = 36 if quick else 200
+    kinds3 = [k_ for k_ in kinds if k_ != "one-term"]       # a single product term has a massively degenerate spectrum
     for it in range(nb3):
-        note(check_gs_with_ofs(run, rng, kinds[it % len(kinds)]))
-        note(check_evolve_with_ofs(run, rng, kinds[(it + 4) % len(kinds)]))
+        note(check_gs_with_ofs(run, rng, kinds3[it % len(kinds3)]))
+        note(check_evolve_with_ofs(run, rng, kinds3[(it + 4) % len(kinds3)]))
 
     run.cov["evaluations"] = run.cov.get("evaluations", 0) + evals
     run.cov["distinct_nontrivial"] = len(distinct) + k
